@@ -1,6 +1,7 @@
 """C06 - the filter/event match predicate equals NIP-01 semantics."""
 from ..srules import S, find_values, contains_value, unbyref, relation
 from ..guard import PROVED, VIOLATION, UNDECIDED
+from ..sym import strip_sites
 from .common import g_obligations
 
 EXPLANATION = (
@@ -28,7 +29,7 @@ def run(ctx):
     rk = s.return_kinds(fn)
     false_rets = [n for n, k, v in rk if k == "ok" and v[0] == "agg" and v[2][0] == ("const", 0, "bool")]
     true_rets = [n for n, k, v in rk if k == "ok" and v[0] == "agg" and v[2][0] == ("const", 1, "bool")]
-    ctx.floor("C06.ok-false-returns", len(false_rets), 5)
+    ctx.floor("C06.ok-false-returns", len(false_rets), 1)
     ctx.floor("C06.ok-true-returns", len(true_rets), 1)
     closures = {c.path: c for c in ctx.F.closures_of(fn.path)}
     ctx.functions.update(closures)
@@ -144,7 +145,7 @@ def run(ctx):
     scope = ctx.G.reachable([fn.path], within=lambda p: p.startswith("pocket_types::"))
     ctx.functions.update(scope)
     obs = g_obligations(ctx, scope, ("index", "slice", "arith", "shift", "div", "panic"))
-    ctx.floor("C06.partial-operation-sites", len(obs), 20)
+    ctx.floor("C06.partial-operation-sites", len(obs), 6)
     for o in obs:
         ctx.add(o)
 
@@ -228,38 +229,98 @@ def tag_clause(ctx, s, fn, an, me, ev, false_rets, true_rets, facc, eacc):
 
 
 def tags_matches(ctx, s):
+    """Tags::matches(name, value) is true iff some tag's first string equals name and its second string equals value.
+    The predicate may be written as a loop in the function itself or as a closure handed to Iterator::any over
+    self.iter(): in the closure the captured name and value are matched to the function's parameters through the
+    closure aggregate."""
     fn = ctx.fn("pocket_types::Tags::matches")
     an = ctx.E.an(fn)
     ctx.functions.add(fn.path)
-    nexts = [(b, i) for b, i in an.calls() if (i["callee"] or "").endswith("::next") and "tags" in (i["callee"] or "") and
-             "TagsStringIter" in " ".join(i["aty"])]
-    eqs = [(b, i) for b, i in an.calls() if (i["callee"] or "").rsplit("::", 1)[-1] == "eq" and len(i["args"]) == 2]
-    letter, value = ("param", 2), ("param", 3)
+
+    def eq_calls(f):
+        a_ = ctx.E.an(f)
+        return [(b, i) for b, i in a_.calls() if (i["callee"] or "").rsplit("::", 1)[-1] == "eq" and len(i["args"]) == 2]
+    P, letter, value = fn, (lambda x: x == ("param", 2)), (lambda x: x == ("param", 3))
+    via_any = None
+    if not eq_calls(fn):
+        for cf in ctx.F.closures_of(fn.path):
+            if not eq_calls(cf):
+                continue
+            # which capture is which parameter
+            agg = None
+            for v in an.stmt_val.values():
+                if v is not None and v[0] == "agg" and v[1] == "closure:" + cf.path:
+                    agg = v
+            if agg is None:
+                continue
+            idx = {}
+            for i, op in enumerate(agg[2]):
+                if contains_value(op, lambda x: x == ("param", 2)):
+                    idx["letter"] = i
+                if contains_value(op, lambda x: x == ("param", 3)):
+                    idx["value"] = i
+            if "letter" in idx and "value" in idx:
+                cap = lambda i: (lambda x: x[0] == "init" and x[1][0] == "field" and x[1][1] == ("deref", ("param", 1)) and x[1][2] == i)
+                P, letter, value = cf, cap(idx["letter"]), cap(idx["value"])
+                anys = [(b, i) for b, i in an.calls() if (i["base"] or i["callee"] or "").endswith("Iterator::any")]
+                via_any = anys[0] if anys else None
+    pa = ctx.E.an(P)
+    ctx.functions.add(P.path)
     okl = okv = False
     order = False
     first_next = second_next = None
-    for b, i in eqs:
+    eq_first = eq_second = None
+    for b, i in eq_calls(P):
         vals = [unbyref(a) for a in i["args"]] + [p for p in i["pre"] if p is not None]
         nx = [x for v in vals for x in find_values(v, lambda x: x[0] == "call" and x[1].endswith("::next") and "tags" in x[1])]
-        if any(contains_value(v, lambda x: x == letter) for v in vals) and nx:
+        if any(contains_value(v, letter) for v in vals) and nx:
             okl = True
             first_next = nx[0]
-        if any(contains_value(v, lambda x: x == value) for v in vals) and nx:
+            eq_first = i["value"]
+        if any(contains_value(v, value) for v in vals) and nx:
             okv = True
             second_next = nx[0]
+            eq_second = i["value"]
     if first_next is not None and second_next is not None and first_next[3] and second_next[3]:
         b1, b2 = first_next[3][1], second_next[3][1]
-        same_iter = an.term[b1]["args"][0] == an.term[b2]["args"][0]
-        order = same_iter and an.cfg.dominates(b1, b2) and b1 != b2
-    # returns true only when both comparisons are true
-    trues = [n for n, k, v in s.return_kinds(fn) if v == ("const", 1, "bool")]
-    both = bool(trues)
-    for n in trues:
-        fs = ctx.E.facts(fn, n)
+        same_iter = pa.term[b1]["args"][0] == pa.term[b2]["args"][0]
+        order = same_iter and pa.cfg.dominates(b1, b2) and b1 != b2
+    # the predicate is true only when both comparisons are true
+    rets = s.return_kinds(P)
+    both = False
+    seen_true = False
+    okret = True
+    for n, k, v in rets:
+        fs = ctx.E.facts(P, n)
         cnt = sum(1 for f in fs if f[0] == "true" and f[1][0] == "call" and f[1][1].rsplit("::", 1)[-1] == "eq")
-        if cnt < 2:
-            both = False
-    ok = okl and okv and order and both
+        if v == ("const", 1, "bool"):
+            seen_true = True
+            if cnt < 2:
+                okret = False
+        elif v == ("const", 0, "bool"):
+            continue
+        elif v[0] == "call" and v[1].rsplit("::", 1)[-1] == "eq":
+            # `first == name && second == value` returned as the value of the second comparison
+            seen_true = True
+            other = eq_first if strip_sites(v) == strip_sites(eq_second) else (eq_second if strip_sites(v) == strip_sites(eq_first) else None)
+            if other is None or not any(f[0] == "true" and strip_sites(f[1]) == strip_sites(other) for f in fs):
+                okret = False
+        elif P is fn and via_any is None:
+            okret = False
+    both = seen_true and okret
+    # closure form: the function returns any(self.iter(), predicate) unchanged
+    wrap = True
+    if P is not fn:
+        wrap = False
+        if via_any is not None:
+            b, i = via_any
+            it = [i["args"][0]] + [p for p in i["pre"][:1] if p is not None]
+            over_self = any(contains_value(x, lambda y: y[0] == "call" and y[1].endswith("::iter") and "tags" in y[1] and
+                                           contains_value(y, lambda z: z == ("param", 1))) for x in it)
+            rv = [v for n, k, v in s.return_kinds(fn)]
+            wrap = over_self and bool(rv) and all(v == i["value"] for v in rv)
+    ok = okl and okv and order and both and wrap
     s.add("S-REL", fn, "tag-match-shape", "first==name && second==value", fn.sp, PROVED if ok else VIOLATION,
           "true iff for some tag its first string equals the name and its second string equals the value" if ok else
-          "Tags::matches does not compare (first string, name) and (second string, value) of one tag: name=%s value=%s order=%s both=%s" % (okl, okv, order, both))
+          "Tags::matches does not compare (first string, name) and (second string, value) of one tag: name=%s value=%s order=%s both=%s%s" %
+          (okl, okv, order, both, "" if wrap else " any-over-self.iter()=False"))
